@@ -753,6 +753,63 @@ Example failed_resume_nonvacuous :
     [[Ev 0 9 TStart 0; Ev 0 4 TStart 0; Ev 0 4 TError 0; Ev 0 9 TError 0]].
 Proof. split; vm_compute; reflexivity. Qed.
 
+(* The prologue of a NESTED graph fails: the run that resumes restores the tasks of the top-level graph, the
+   nested graph - continued from its own checkpoint, handed down in the context - cannot (restoreCheckPoint,
+   the state modifier, restoreTasks: a newer build of the nested graph has no node for a pending task).  In a
+   run plan: [RFault delay] as the first stage of that nested graph - it strikes in the execution that follows
+   [delay] interrupted executions of the nested graph, and is nothing until then.  Plans with such stages are
+   plans: every [resumed_runs_*] theorem holds for every run of their sequences.  What the stage amounts to:
+   when it strikes, the operations of the node are its context, the nested graph's start and the nested graph's
+   error; the nested graph is the one executed unit below the node, with timings start; error, whatever its
+   stages, options and handler lists are; the node has FAILED (not: been interrupted), so the enclosing stage
+   fails and the sequence ends. *)
+Theorem failed_nested_prologue_serves_that_graph_once :
+  forall is_stream parent inh opts uid key inf stages,
+    proj (RSub uid key inf ([RFault 0] :: stages)) = [GSub uid key inf ([GStop] :: proj_stages stages)] /\
+    node_ops is_stream parent opts (GSub uid key inf ([GStop] :: proj_stages stages)) =
+      ([OAppend (Some parent) uid inf (designated key opts); OOn uid (graph_start is_stream); OOn uid TError], true) /\
+    node_table is_stream inh opts (GSub uid key inf ([GStop] :: proj_stages stages)) =
+      ([{| ue_unit := uid; ue_info := inf; ue_list := inh ++ List.concat (designated key opts);
+           ue_timings := [graph_start is_stream; TError] |}], true) /\
+    node_outcome opts (RSub uid key inf ([RFault 0] :: stages)) = OutFail.
+Proof.
+  intros. split; [apply nested_fault_proj|]. split; [apply nested_fault_ops|].
+  split; [apply nested_fault_table|apply nested_fault_outcome].
+Qed.
+Print Assumptions failed_nested_prologue_serves_that_graph_once.
+
+(* until it strikes the stage is nothing, and every interrupted execution of the nested graph brings it one
+   step nearer (so [RFault d] strikes exactly in the execution that follows d interrupted ones) *)
+Theorem nested_fault_waits_for_its_execution :
+  forall opts uid key inf d stages,
+    node_outcome opts (RSub uid key inf ([RFault (S d)] :: stages)) = node_outcome opts (RSub uid key inf stages) /\
+    (forall is_stream inh o,
+       node_table is_stream inh o (GSub uid key inf (proj_stages ([RFault (S d)] :: stages))) =
+       node_table is_stream inh o (GSub uid key inf (proj_stages stages))) /\
+    (forall stages', resume_node opts (RSub uid key inf stages) = RSub uid key inf stages' ->
+       resume_node opts (RSub uid key inf ([RFault (S d)] :: stages)) = RSub uid key inf ([RFault d] :: stages')).
+Proof.
+  intros. split; [apply nested_fault_pending_outcome|]. split; [apply nested_fault_pending_table|].
+  intros stages'. apply nested_fault_counts_down.
+Qed.
+Print Assumptions nested_fault_waits_for_its_execution.
+
+(* Non-vacuity: the plan of [resumed_runs_nonvacuous] with the fault in sub graph 2 after one interrupted
+   execution: run 0 is interrupted (lambda 1, and lambda 4 inside sub graph 2); in run 1 lambda 1 completes,
+   sub graph 2 - handler 2 is designated into it - reports its start and its error and nothing in it executes,
+   the graph fails; there is no run 2. *)
+Example failed_nested_resume_nonvacuous :
+  map (fun r => map (fun e => (ue_unit e, ue_list e, ue_timings e)) (graph_table false 0 0 (fst r) (snd r)))
+      (run_seqf 5 (fun _ => [([1], []); ([2], [[2]])])
+         [[RLambda 1 1 1 1 false 1;
+           RSub 2 2 2 [[RFault 1]; [RLambda 3 1 3 1 false 0]; [RLambda 4 2 4 8 false 1]];
+           RLambda 5 3 5 1 false 0];
+          [RLambda 6 4 6 1 false 0]]) =
+    [[(0, [1], [TStart; TError]); (1, [1], [TStart; TError]); (2, [1; 2], [TStart; TError]);
+      (3, [1; 2], [TStart; TEnd]); (4, [1; 2], [TStartStream; TError]); (5, [1], [TStart; TEnd])];
+     [(0, [1], [TStart; TError]); (1, [1], [TStart; TEnd]); (2, [1; 2], [TStart; TError])]].
+Proof. vm_compute. reflexivity. Qed.
+
 (* ------------------------------------------------------------------ payloads *)
 
 (* Operations with the payload their On call is given ([pop]); [prun]: the run in which every
